@@ -178,10 +178,18 @@ def trees(quick):
     return singles + ts
 
 
+BROKEN_PRELUDES = [b'p (iauth, iauth_xquery\n', b'p iauth, iauth_xquery, (\n', b'o {\n q "unterminated\n']
+
+
 def _task(srv, item):
-    """item = list of (case id, file text); -> list of (case id, status, rc, flattened dump or None)"""
+    """item = list of (case id, file text); -> list of (case id, status, rc, flattened dump or None).
+    A negative case id means: the file is loaded after rejected loads of broken files in the same process (a rejected load must leave
+    nothing behind that changes how the next file is read)."""
     cands = [C.load(t.encode('latin-1')) for _, t in item]
-    h, res = srv.expand([], cands)
+    hist = [C.load(b) for b in BROKEN_PRELUDES] if item and item[0][0] < 0 else []
+    h, res = srv.expand(hist, cands)
+    if hist and any(rc == 0 for rc in h['rcs']):
+        return {'harness_error': 'a broken prelude file was accepted: %r' % (h['rcs'],)}
     out = []
     for (cid, t), r in zip(item, res):
         if r.get('status') != 'ok':
@@ -305,15 +313,22 @@ def main(tier):
             for (i1, k1), (i2, k2) in itertools.combinations(single, 2):
                 if i1 != i2:
                     cases.append((ti, {i1: k1, i2: k2}))
-    batches, cur = [], []
+    batches, cur, cur2 = [], [], []
     texts = {}
     for cid, (ti, dev) in enumerate(cases):
         text, pts = render(T[ti], dev)
         cur.append((cid, text))
         if len(cur) >= 200:
             batches.append(cur); cur = []
+        # second pass after rejected loads: the default rendering of every tree and every deviation of a list shape
+        if not dev or any(pts[i][0] in ('list-shape', 'items') for i in dev if i < len(pts)):
+            cur2.append((-cid - 1, text))
+            if len(cur2) >= 200:
+                batches.append(cur2); cur2 = []
     if cur:
         batches.append(cur)
+    if cur2:
+        batches.append(cur2)
     n_ok = n_rej = n_bad = 0
     distinct = set()
     nfiles = 0
@@ -326,6 +341,9 @@ def main(tier):
                 run.cap('deadline after %d of %d files' % (nfiles, len(cases)))
                 break
             for cid, status, rc, flat, err in res:
+                after_broken = cid < 0
+                if after_broken:
+                    cid = -cid - 1
                 ti, dev = cases[cid]
                 text, pts = render(T[ti], dev)
                 nfiles += 1
@@ -336,7 +354,7 @@ def main(tier):
                     n_ok += 1
                     continue
                 n_bad += 1
-                cls = classify(pts, dev, text, status, rc)
+                cls = classify(pts, dev, text, status, rc) + ('/after-rejected-load' if after_broken else '')
                 if status != 'ok':
                     what = 'loading %r: process %s %s' % (text[:200], status, err.strip().splitlines()[-1:] )
                 elif rc != 0:
@@ -345,7 +363,10 @@ def main(tier):
                 else:
                     diffs = ['%s:%s read as %r, written %r' % (k[1], k[0], flat.get(k, '<absent>'), want.get(k, '<absent>')) for k in sorted(set(flat) | set(want)) if flat.get(k, '<absent>') != want.get(k, '<absent>')]
                     what = 'file %r read back as a different tree: %s  [%s]' % (text[:200], '; '.join(diffs[:3]), describe(pts, dev))
-                run.violation(cls, what, {'engine': 'conf', 'file': text, 'expected': [[k[0], k[1], v] for k, v in sorted(want.items())], 'deviations': describe(pts, dev)}, dedup=cls)
+                if after_broken:
+                    what = '[loaded after rejected loads of broken files in the same process] ' + what
+                run.violation(cls, what, {'engine': 'conf', 'file': text, 'expected': [[k[0], k[1], v] for k, v in sorted(want.items())], 'deviations': describe(pts, dev),
+                                          'after_broken': after_broken}, dedup=cls)
         # typed values
         tc = typed_cases(quick)
         tb = [tc[i:i + 100] for i in range(0, len(tc), 100)]
@@ -382,7 +403,7 @@ def replay(obj):
     b = build.build()
     with C.Server(b) as s:
         if 'file' in r:
-            h, res = s.expand([], [C.load(r['file'].encode('latin-1'))])
+            h, res = s.expand([C.load(x) for x in BROKEN_PRELUDES] if r.get('after_broken') else [], [C.load(r['file'].encode('latin-1'))])
             x = res[0]
             got = flatten(x['dump']) if x.get('status') == 'ok' and x.get('rc') == 0 else None
             want = {(a, k): (tuple(v) if isinstance(v, list) else v) for a, k, v in r['expected']}
